@@ -364,6 +364,11 @@ pub fn replay_flow(case: &Value, rep: &mut Report) {
                 }
             }
             "skip" | "loop" => {
+                // vacuity guard: the accumulations must be distinguishable on this case
+                let distinct: std::collections::HashSet<String> = eval["predict"].as_object().unwrap().values().map(|v| v["y"].to_string()).collect();
+                if distinct.len() >= 4 {
+                    rep.count("cases_with_distinct_accumulation_outputs", 1);
+                }
                 for (acc, pv) in eval["predict"].as_object().unwrap() {
                     if mode == "skip" {
                         net.set_accumulation(nets::accumulation(acc), nets::accumulation("mean"));
